@@ -1,7 +1,7 @@
 """C10 — cycle-counting pipeline and fatigue-damage PSD invariants (DESIGN.md section 6/C10).
 
 Tie
-  * exact correspondence between the Lean models (Model/Findap, Model/Binify, Model/Fde and the
+  * exact correspondence between the Lean models (Model/FindapFix = findap as repaired by f8f6e40/4b29dcf, Model/Binify, Model/Fde and the
     C05 rainflow model for the `sigcount` pipeline; run over Rat through Drivers/C10.lean) and
       - cyclecount.findap (the variant that executes: numba is absent) on dyadic signals,
       - the numba-only variant of findap, which is *source text* here: a translator
@@ -16,7 +16,7 @@ Tie
     and of fdepsd._dofde (the worker, driven directly with plain arrays): Amax, BinAmps, Count,
     BinCount, Df4/8/12 against Model/Fde on the cycle tables of the filtered responses.
   * worker stream: Model/FdePsd (`Fde.fdeFreq`: SRSmax, Var, findap -> rainflow, Amax, BinAmps, Count,
-    BinCount, the G2max loop, Df_b, Dt_b, sig2_b, G1..G12, Gmax, the pvelo rescaling of Dt_b) run at
+    BinCount, the G2max loop, Df_b, Dt_b, sig2_b, G1..G12, Gmax, the pvelo rescaling of Dt_b and halving of sig2_b) run at
     Float on the implementation's own filtered response; srs, Amax, binamps, count, bincount must
     agree bit for bit, var, di_sig, psd, peakamp, var_test, di_test to 1e-9 (element-wise relative).
 Search: the property restated on the API (never through the Lean model).
@@ -42,29 +42,23 @@ sys.path.insert(0, os.path.join(os.path.dirname(os.path.dirname(os.path.abspath(
 from translate import c10_findap_numba as _tr  # noqa: E402
 
 ID = "C10"
-LEAN_MODULES = ["PyYetiVerif.Props.C10", "PyYetiVerif.Props.C10Fde", "PyYetiVerif.Props.C10Fix", "PyYetiVerif.Props.C10FixFde",
+LEAN_MODULES = ["PyYetiVerif.Props.C10", "PyYetiVerif.Props.C10Fde", "PyYetiVerif.Props.C10PreFix",
                 "PyYetiVerif.Props.C10Bins", "PyYetiVerif.Props.C10Labels", "PyYetiVerif.Props.C10Psd", "PyYetiVerif.Props.C10Locate",
                 "PyYetiVerif.Audit.C10"]
 AUDIT_FILE = "PyYetiVerif/Audit/C10.lean"
 THEOREMS = ["PyYetiVerif.C10." + n for n in (
-    "seq_first_selected seq_alternates seq_extremes_within_two_stol seq_end_rule_counterexample "
-    "seq_unbound_counterexample default_first_selected default_alternates_partial default_extremes_partial "
-    "default_drift_counterexample variants_differ_counterexample digitize_spec binify_places "
-    "binify_conserves cum_count_antitone count_col0_total bincount_sum_total "
-    "G2_ge_G1 "
-    "auto_bins_cover binify_auto_conserves amax_le_srs bincount_spec damage_def damage_per_cycle table_scaling "
-    "test_damage_positive test_variance_reproduces_internal test_variance_reproduces test_variance_pvelo_factor "
-    "test_variance_pvelo_counterexample G_b_monotone_in_damage G2_ge_G1_loop psd_quadratic_scaling cycle_table_scaling "
-    "psd_quadratic_scaling_signal "
-    # third phase: repair candidates (theorems about the PATCHED functions of corpus/c10_*_candidate_fix.diff)
-    "findap_fixed_first_selected findap_fixed_alternates findap_fixed_extremes_within_stol findap_fixed_variants_agree "
-    "findap_fixed_numba_variant findap_fixed_unchanged_on_fast_path findap_fixed_F4_example findap_fixed_F14_F22_F23_examples "
-    "test_variance_reproduces_fixed var_test_is_documented_variance fix_F25_changes_var_test_only "
-    # binify / sigcount end to end
+    # findap, both variants, the code after the repairs f8f6e40 / 4b29dcf - full strength
+    "default_first_selected default_alternates default_extremes default_total default_fast_path_is_find_unique "
+    "seq_first_selected seq_alternates seq_extremes seq_total variants_agree fixed_F4_example fixed_F14_F22_F23_examples "
+    # binning
+    "digitize_spec binify_places binify_conserves auto_bins_cover binify_auto_conserves "
     "digitize_eq_iff explicit_bins_range binify_drops_uncovered binify_conserves_2d binify_explicit_bins_spec "
     "roundHalfEven_close labels_distinct_of_gap label_collision_example getLabels_length binify_packaging sigcount_is_composition "
     "sigcount_auto_conserves "
     # fdepsd bookkeeping
+    "cum_count_antitone count_col0_total bincount_sum_total G2_ge_G1 amax_le_srs bincount_spec damage_def damage_per_cycle "
+    "table_scaling test_damage_positive test_variance_reproduces_internal test_variance_reproduces var_test_is_documented_variance "
+    "G_b_monotone_in_damage G2_ge_G1_loop psd_quadratic_scaling cycle_table_scaling psd_quadratic_scaling_signal "
     "binamps_formula count_is_upper_cumulative counts_antitone bincount_diff psd_G_formulas psd_inverse_in_Q "
     "resp_switch_G1_G2 fdeFreq_neg psd_quadratic_scaling_full psd_quadratic_scaling_input "
     # locate
@@ -85,8 +79,6 @@ TRUSTED = [
     "Python's format(x, '.pf') prints the correctly rounded (ties-to-even) decimal of the exact value of the double: modelled over Rat by "
     "Binify.fmtFixed and compared as strings on every run; pandas DataFrame construction (index/columns/names) is compared, not modelled",
     "np.argsort inside locate.find_duplicates: any order among equal values (the model uses a merge sort)",
-    "corpus/c10_candidate_fix_check.py (ties the repair-candidate models FindapFix / FdePsdFix to the patched text in a scratch worktree; "
-    "not part of ./check)",
 ]
 RULE = (
     "findap: all signals over {0..3} of length 1..6 (7 thorough) x 5 tolerances plus seeded dyadic signals "
@@ -116,39 +108,36 @@ ASSUMPTIONS = [
     "(relative to the last printed place) of the edge; otherwise skipped and counted; explicit dyadic edges are always compared",
 ]
 PARTIAL = (
-    "UNPATCHED code (what /repo runs): default findap: alternation/extremes proved only under NoSubTolDrift (finding F4; necessity proved "
-    "by default_drift_counterexample); numba variant: first sample and alternation proved in full, extremes proved within 2*stol - within "
-    "stol is false (seq_end_rule_counterexample, F22); the variant can fail outright (seq_unbound_counterexample, F14); 'both variants "
-    "select the same set' is false even without drift (variants_differ_counterexample, F23).  For the PATCHED functions of "
-    "corpus/c10_F4/F14_F22/F23_candidate_fix.diff all of this is proved for every signal and tolerance (findap_fixed_*), but those "
-    "theorems are about repair candidates, not about /repo; F4 F14 F22 F23 F25 stay open until a patch is applied.  F23 cannot be "
-    "repaired without changing what one variant returns on the 'return' family (stated in the diff).  fdepsd: test_variance_reproduces "
-    "holds for resp='absacce'; for 'pvelo' only up to 2**(b/2) (test_variance_pvelo_factor, F25); test_variance_reproduces_fixed is "
-    "about the patched tail.  auto_bins_cover / binify_auto_conserves / labels_distinct_of_gap are over exact arithmetic (doubles: "
-    "finding F41, fixed; labels of computed edges within 1e-6 of a rounding boundary are skipped and counted).  binify: the total of the "
-    "table and the cell of every cycle are proved (binify_places, binify_drops_uncovered, binify_conserves_2d, "
-    "binify_explicit_bins_spec); the cell-by-cell sum formula is not stated as a theorem.  find_duplicates: code model and documented "
-    "meaning are both in Lean and compared on every run; their equivalence is not proved.  psd_quadratic_scaling_full covers c of either "
-    "sign from the filtered response on; that detrend/windowends/butter/lfilter/resample are homogeneous is the specification "
-    "IsLinear (psd_quadratic_scaling_input), sampled by the oracle's x4 and x(-4) runs, not proved.  G2_ge_G1_loop assumes every "
-    "examined level's count is below the total (equality: division by zero, G2 = inf in doubles, still >= G1).  String rendering of "
-    "labels (digits, sign of a negative value rounding to zero) is executable model + exact stream, theorems are about the label NUMBER."
+    "findap (both variants, the code after the repairs f8f6e40 / 4b29dcf) and the fdepsd test-variance relation (both resp, after "
+    "4ed3a4d) are proved at full strength; what the pre-fix text did is recorded in Props/C10PreFix.lean outside the claims.  Still "
+    "partial: auto_bins_cover / binify_auto_conserves / labels_distinct_of_gap are over exact arithmetic (doubles: finding F41, fixed; "
+    "labels of computed edges within 1e-6 of a rounding boundary are skipped and counted).  binify: the total of the table and the cell "
+    "of every cycle are proved (binify_places, binify_drops_uncovered, binify_conserves_2d, binify_explicit_bins_spec); the "
+    "cell-by-cell sum formula is not stated as a theorem.  find_duplicates: code model and documented meaning are both in Lean and "
+    "compared on every run; their equivalence is not proved.  psd_quadratic_scaling_full covers c of either sign from the filtered "
+    "response on; that detrend/windowends/butter/lfilter/resample are homogeneous is the specification IsLinear "
+    "(psd_quadratic_scaling_input), sampled by the oracle's x4 and x(-4) runs, not proved.  G2_ge_G1_loop assumes every examined "
+    "level's count is below the total (equality: division by zero, G2 = inf in doubles, still >= G1).  String rendering of labels "
+    "(digits, sign of a negative value rounding to zero) is executable model + exact stream, theorems are about the label NUMBER.  The "
+    "fast path of _unique_kept is modelled by its two vectorised conditions (fastOK); numpy's evaluation of them (maximum.accumulate, "
+    "fancy indexing) is tied by the exact findap stream, which requires both the vectorised and the sequential branch on every run."
 )
 MANIFEST = {
-    "level_text": "proof (partial for default findap: known finding F4; numba variant F14/F22/F23; fdepsd test-variance relation for pvelo: "
-                  "known finding F25) + proved repair candidates for all five open findings (theorems about the patched functions)",
-    "level_note": "selection, binning (explicit and automatic bins, both `right` conventions, 2-D counts, what is dropped), labels/packaging, "
+    "level_text": "proof (findap: both variants at full strength - first sample, strict alternation, extremes within stol, variants agree; "
+                  "binning, labels, sigcount; fdepsd bookkeeping incl. the test-variance relation for both resp)",
+    "level_note": "selection (default variant incl. _unique_kept's vectorised test and sequential scan; numba variant as source text), "
+                  "binning (explicit and automatic bins, both `right` conventions, 2-D counts, what is dropped), labels/packaging, "
                   "sigcount as a composition and locate.find_unique are modelled exactly over Rat and proved about; everything fdepsd "
                   "computes per frequency after lfilter is one polymorphic Lean definition, proved about over the reals (amax_le_srs, "
-                  "bincount_spec, count_is_upper_cumulative, damage_def, psd_G_formulas, test_variance_*, G2_ge_G1_loop, "
-                  "psd_quadratic_scaling_full for c of either sign) and run at Float against every returned table; only tied/measured: "
-                  "lfilter and the signal pre-processing (specification IsLinear), libm rounding of log/sqrt/pow, decimal string "
-                  "rendering of labels, find_duplicates' equivalence with its documented meaning; the repair candidates are tied to the "
-                  "patched text by corpus/c10_candidate_fix_check.py in a scratch worktree, never by the check itself",
+                  "bincount_spec, count_is_upper_cumulative, damage_def, psd_G_formulas, test_variance_reproduces, "
+                  "var_test_is_documented_variance, G2_ge_G1_loop, psd_quadratic_scaling_full for c of either sign) and run at Float "
+                  "against every returned table; only tied/measured: lfilter and the signal pre-processing (specification IsLinear), libm "
+                  "rounding of log/sqrt/pow, decimal string rendering of labels, find_duplicates' equivalence with its documented meaning",
     "technique": "Lean 4 theorems about executable models + exact correspondence + Float run of the same definitions (numeric 1e-9) "
-                 "+ ast transcription of the numba variant",
+                 "+ ast transcription of the numba variant with a static no-unbound-read obligation",
 }
 
+# families of the REPAIRED findings (known_findings.json: fixed): a recurrence prints VIOLATION
 F4 = "findap-default-subtolerance-drift"
 F14 = "findap-numba-variant-nxt-unbound"
 N1 = "findap-numba-variant-end-rule-drops-held-extreme"
@@ -328,10 +317,10 @@ def _corr_findap(ctx, drv):
     req = []
     for y, tol, _ in cases:
         a = "%s | %s" % (_fr(tol), _frs(y))
-        req += ["fd " + a, "fs " + a, "nd " + a]
+        req += ["fd " + a, "fs " + a, "nd " + a, "xk " + a]
     rep = drv.ask(req)
     for i, (y, tol, style) in enumerate(cases):
-        m_d, m_s, nd = _parse_idx(rep[3 * i]), _parse_idx(rep[3 * i + 1]), rep[3 * i + 2]
+        m_d, m_s, nd, fast = _parse_idx(rep[4 * i]), _parse_idx(rep[4 * i + 1]), rep[4 * i + 2], rep[4 * i + 3]
         i_d = _run_findap(dflt, y, tol)
         inp = {"y": y if len(y) <= 60 else y[:60] + ["…(%d)" % len(y)], "tol": tol}
         full = {"y": y, "tol": tol}
@@ -343,6 +332,8 @@ def _corr_findap(ctx, drv):
         if isinstance(m_d, list):
             ctx.count("findap-default:all-unique" if len(y) > 1 and not subtol and len(set(np.diff(yy) != 0)) == 1
                       and len(m_d) == len(y) else "findap-default:expanded")
+            if len(y) > 1:
+                ctx.count("findap-default:unique-kept-vectorised-test-passes" if fast == "1" else "findap-default:unique-kept-sequential-scan")
         else:
             ctx.count("findap-default:" + m_d)
         if i_d != m_d:
@@ -350,8 +341,8 @@ def _corr_findap(ctx, drv):
         if seq is not None:
             i_s = _run_findap(seq, y, tol)
             if isinstance(m_s, list):
-                if len(y) <= 2:
-                    ctx.count("findap-numba:size-1-2")
+                if len(y) <= 1:
+                    ctx.count("findap-numba:size-1")
                 elif m_s == [0]:
                     ctx.count("findap-numba:no-significant-change")
                 elif m_s[-1] == len(y) - 1:
@@ -362,12 +353,16 @@ def _corr_findap(ctx, drv):
                 ctx.count("findap-numba:" + m_s)
             if i_s != m_s:
                 ctx.disagree("findap-numba-transcription", full if len(y) <= 400 else inp, i_s, m_s)
+            if isinstance(m_s, list) and isinstance(m_d, list) and m_s != m_d:
+                # contradicts the theorem variants_agree (cannot happen)
+                ctx.disagree("findap-variants-agree(model)", full if len(y) <= 400 else inp, m_d, m_s)
         if i % 9000 == 0:
             ctx.sample({"findap": inp, "default": m_d if not isinstance(m_d, list) else m_d[:12], "numba": m_s if not isinstance(m_s, list) else m_s[:12]})
-    need = ["findap:drift", "findap:no-drift", "findap-default:expanded", "findap-default:value-error"]
+    need = ["findap:drift", "findap:no-drift", "findap-default:expanded", "findap-default:value-error",
+            "findap-default:unique-kept-vectorised-test-passes", "findap-default:unique-kept-sequential-scan"]
     if seq is not None:
-        need += ["findap-numba:unbound", "findap-numba:no-significant-change", "findap-numba:end-rule-last",
-                 "findap-numba:end-rule-held", "findap-numba:size-1-2"]
+        need += ["findap-numba:no-significant-change", "findap-numba:end-rule-last",
+                 "findap-numba:end-rule-held", "findap-numba:size-1"]
     return need
 
 
@@ -1383,6 +1378,8 @@ def _oracle_findap(ctx, dflt, seq, y, tol):
     except Exception as e:
         ctx.fail("findap-default-raises-" + type(e).__name__, "default findap raises", inp, repr(e), "a boolean vector")
         return
+    # families are computed from the input's characteristics; F4 is the family of the repaired finding (f8f6e40): listed `fixed`, so a
+    # recurrence is a VIOLATION
     check("default", pd_, lambda tag: F4 if tr["drift"] else "findap-default-%s-without-drift" % tag, 1)
     # the same samples as raw integer counts (24-bit ADC data held in int32, 12-bit data in int16) or single precision: the
     # selection depends on ratios of differences only, so it must be the one of the float64 record (scaling by 2^k is exact)
@@ -1407,7 +1404,7 @@ def _oracle_findap(ctx, dflt, seq, y, tol):
                 ctx.fail("findap-dtype-%s-selects-other-samples" % dt, "default findap selects other samples for the same record stored as "
                          "%s (times 2^%d) than for float64" % (dt, k), dict(inp, dtype=dt, scale=2.0 ** k),
                          np.nonzero(pv)[0].tolist() if pv.dtype == bool else str(pv.dtype), np.nonzero(pd_)[0].tolist())
-    if seq is None or abs(tol) >= 1:
+    if seq is None:
         return
     try:
         ps = seq(y.copy(), tol)
@@ -1424,11 +1421,13 @@ def _oracle_findap(ctx, dflt, seq, y, tol):
             z = y[np.asarray(ps)]
             if y.max() - z.max() <= 2 * st * (1 + 1e-12) and z.min() - y.min() <= 2 * st * (1 + 1e-12):
                 return N1
-        return "findap-numba-variant-%s" % tag
+        return "findap-numba-variant-%s%s" % (tag, "-with-drift" if tr["drift"] else "")
 
     check("numba-variant", ps, seq_family, 2)
     if not np.array_equal(np.asarray(pd_), np.asarray(ps)):
-        fam = F4 if tr["drift"] else N2 if tr["ret"] else N1 if tr["end_drop"] else "findap-variants-differ-without-drift-or-return"
+        fam = (N2 if tr["ret"] and not tr["drift"] else N1 if tr["end_drop"] and not tr["drift"] else
+               "findap-variants-differ-size-2-tol>=1" if n == 2 and abs(tol) >= 1 else
+               "findap-variants-differ-with-drift" if tr["drift"] else "findap-variants-differ-without-drift-or-return")
         ctx.fail(fam, "default and numba-variant findap select different samples", inp,
                  {"default": np.nonzero(pd_)[0].tolist(), "numba": np.nonzero(ps)[0].tolist(), "stol": st}, "identical selections")
 
@@ -1602,11 +1601,11 @@ def _oracle_fdepsd(ctx, sig, sr, freq, Q, opts):
     else:
         g1 = pk[:, 0] ** 2 * 4 * np.pi * out.freq / (Q * lnN0)
         g2 = pk[:, 1] ** 2 * 4 * np.pi * out.freq / (Q * lnN0)
-        gb = out.var_test.values * ((4 * np.pi / Q) * out.freq)[:, None]
+        gb = out.var_test.values * ((8 * np.pi / Q) * out.freq)[:, None]   # sigma_pvelo**2 = Q*PSD/(8*pi*f)
     if not (np.allclose(psd[:, 0], g1, rtol=1e-9, atol=0) and np.allclose(psd[:, 1], g2, rtol=1e-9, atol=0)
             and np.allclose(psd[:, 2:], gb, rtol=1e-9, atol=0)):
         fail("fdepsd-psd-formula-%s" % resp, "G1/G2 are not the Mile's-type conversion (with T0, Q, f) of the peak amplitudes, or G4/G8/G12 not "
-             "that of var_test", psd.tolist(), np.column_stack((g1, g2, gb)).tolist())
+             "that of var_test (documented: sigma_absacce**2 = pi/2*f*Q*PSD, sigma_pvelo**2 = Q*PSD/(8*pi*f))", psd.tolist(), np.column_stack((g1, g2, gb)).tolist())
     # G2: the bound over the levels at or above Amax/3 — G2max is the largest x-intercept of the lines through (0, ln Count_0) and
     # (binamps_k**2, ln Count_k), never below Amax**2 (restated as a maximum of intercepts; the code picks argmax of a slope)
     for j in range(len(out.freq)):
@@ -1789,8 +1788,14 @@ def search(ctx, hints):
         i = h.get("input", {})
         if isinstance(i, dict) and "y" in i and "tol" in i and all(isinstance(v, (int, float)) for v in i["y"]):
             cases.append((i["y"], i["tol"]))
-    cases += [([float(v) for v in list(range(0, 1001)) + [0]], 0.01), ([1.0, 1.0, 4.0], 1e-6),
-              ([-100.0, 0.0, 4.0, -4.0], 0.05), ([0.0, 80.0, 83.0, 78.0, 160.0], 0.05)]
+    # regression guards for the repaired findings (must PASS on /repo; a revert of f8f6e40 / 4b29dcf makes them failing inputs)
+    guards = [("FIXED_F4", [float(v) for v in list(range(0, 1001)) + [0]], 0.01), ("FIXED_F4", [0.0, 1.0, 2.0, 0.0], 0.51),
+              ("FIXED_F14", [1.0, 1.0, 4.0], 1e-6), ("FIXED_F22", [-100.0, 0.0, 4.0, -4.0], 0.05),
+              ("FIXED_F23", [0.0, 80.0, 83.0, 78.0, 160.0], 0.05), ("FIXED_F23", [1.0, 0.0, 2.0], 0.51),
+              ("FIXED_F23(size 2, tol >= 1)", [3.0, 4.0], 1.5)]
+    for name, y, tol in guards:
+        ctx.count("guard:" + name)
+        cases.append((y, tol))
     for L in range(1, 6):
         for s in itertools.product(range(4), repeat=L):
             for tol in (1e-6, 0.5):
@@ -1837,6 +1842,11 @@ def search(ctx, hints):
             continue
         ctx.count("oracle:sigcount")
         _guard(ctx, "sigcount", {"y": y}, _oracle_sigcount, ctx, y)
+    # FIXED_F25 (repair 4ed3a4d): the recorded input
+    ctx.count("guard:FIXED_F25")
+    g_sig, g_opts = np.random.default_rng(0).standard_normal(1500), dict(resp="pvelo", nbins=16, hpfilter=None, winends=None, T0=60.0)
+    _guard(ctx, "fdepsd", {"sr": 200.0, "freq": [10.0, 17.0, 25.0], "Q": 12, "sig": g_sig.tolist(), "opts": g_opts},
+           _oracle_fdepsd, ctx, g_sig, 200.0, np.array([10.0, 17.0, 25.0]), 12, g_opts)
     for sig, sr, freq, Q, opts in _fde_grid(ctx, ctx.pick(16, 120), 11):
         ctx.count("oracle:fdepsd")
         _guard(ctx, "fdepsd", {"sr": sr, "freq": list(map(float, freq)), "Q": Q, "sig": np.asarray(sig).tolist(),
